@@ -20,6 +20,7 @@ fn main() {
     "c08" => vh::engines::c08::run(),
     "c09" => vh::engines::c09::run(),
     "c10" => vh::engines::c10::run(),
+    "c11" => vh::engines::c11::run(),
     "c13" => vh::engines::c13::run(),
     "c14" => vh::engines::c14::run(),
     "c15" => vh::engines::c15::run(),
